@@ -11,6 +11,8 @@ import (
 	"errors"
 	"strings"
 
+	jose "github.com/go-jose/go-jose/v4"
+
 	"github.com/zitadel/oidc/v3/pkg/oidc"
 	"github.com/zitadel/oidc/v3/pkg/op"
 )
@@ -34,6 +36,31 @@ type TEPolicy struct {
 	// NoLogoutFor: a client whose sessions SessFromRequest fails to end (it returns an error,
 	// the backend that holds this client's sessions is down); "" = none.
 	NoLogoutFor string
+	// KeyOnly: resource servers that are no OAuth clients but whose keys the storage knows
+	// (id -> kid -> public key), see KeyOnlyRS; only honoured by AsStorageTEWith.
+	KeyOnly map[string]map[string]*jose.JSONWebKey
+	// Late: the veto point. "" = CreateTokenExchangeRequest (the SECOND storage hook) never refuses;
+	// "plain" / "oauth": it refuses requests whose current scopes contain "late", with a plain
+	// error / with an *oidc.Error (invalid_request).
+	Late string
+}
+
+func (t TEP) CreateTokenExchangeRequest(ctx context.Context, request op.TokenExchangeRequest) error {
+	if err := t.TE.CreateTokenExchangeRequest(ctx, request); err != nil {
+		return err
+	}
+	if t.P.Late == "" {
+		return nil
+	}
+	for _, sc := range request.GetScopes() {
+		if sc == "late" {
+			if t.P.Late == "oauth" {
+				return oidc.ErrInvalidRequest().WithDescription("refused when the request was to be persisted")
+			}
+			return errors.New("audit store refuses this exchange")
+		}
+	}
+	return nil
 }
 
 // ActClaim is the act claim policy p decides for actor ("" = none); idToken: for an ID token.
@@ -227,6 +254,28 @@ func (v ExtVerifier) VerifyExchangeActorToken(ctx context.Context, token string,
 	return v.verify(ctx, "VerifyExchangeActorToken", token, typ, "AB")
 }
 
+// KeyOnlyRS: resource servers / service accounts that are NOT OAuth clients - unknown to
+// GetClientByClientID - but whose public keys the storage knows (Store.KeyOnly: id -> kid -> key),
+// so that they authenticate with a private_key_jwt assertion (introspection callers). TEPolicy.KeyOnly.
+type KeyOnlyRS struct {
+	S    *Store
+	Keys map[string]map[string]*jose.JSONWebKey
+}
+
+func (k KeyOnlyRS) GetKeyByIDAndClientID(ctx context.Context, keyID, clientID string) (*jose.JSONWebKey, error) {
+	keys, ok := k.Keys[clientID]
+	if !ok {
+		return k.S.GetKeyByIDAndClientID(ctx, keyID, clientID)
+	}
+	if err := k.S.enter(ctx, "GetKeyByIDAndClientID"); err != nil {
+		return nil, err
+	}
+	if key, ok := keys[keyID]; ok {
+		return key, nil
+	}
+	return nil, errors.New("key not found")
+}
+
 // AsStorageTEWith: the store with all optional capabilities, token exchange under policy p,
 // optionally CanGetPrivateClaimsFromRequest, and - as p says - TokenExchangeTokensVerifierStorage
 // and CanTerminateSessionFromRequest.
@@ -239,47 +288,58 @@ func (s *Store) AsStorageTEWith(p TEPolicy, fromRequest bool) op.Storage {
 	}
 	b := base{s, CC{s}, TEP{TE{s}, p}, Dev{s}}
 	fr, ev, sr := FromRequest{s}, ExtVerifier{s}, SessFromRequest{s, p.NoLogoutFor}
+	ko := KeyOnlyRS{s, p.KeyOnly}
 	switch {
 	case fromRequest && p.Verifier && p.SessionFromRequest:
 		return struct {
 			base
+			KeyOnlyRS
 			FromRequest
 			ExtVerifier
 			SessFromRequest
-		}{b, fr, ev, sr}
+		}{b, ko, fr, ev, sr}
 	case fromRequest && p.Verifier:
 		return struct {
 			base
+			KeyOnlyRS
 			FromRequest
 			ExtVerifier
-		}{b, fr, ev}
+		}{b, ko, fr, ev}
 	case fromRequest && p.SessionFromRequest:
 		return struct {
 			base
+			KeyOnlyRS
 			FromRequest
 			SessFromRequest
-		}{b, fr, sr}
+		}{b, ko, fr, sr}
 	case p.Verifier && p.SessionFromRequest:
 		return struct {
 			base
+			KeyOnlyRS
 			ExtVerifier
 			SessFromRequest
-		}{b, ev, sr}
+		}{b, ko, ev, sr}
 	case fromRequest:
 		return struct {
 			base
+			KeyOnlyRS
 			FromRequest
-		}{b, fr}
+		}{b, ko, fr}
 	case p.Verifier:
 		return struct {
 			base
+			KeyOnlyRS
 			ExtVerifier
-		}{b, ev}
+		}{b, ko, ev}
 	case p.SessionFromRequest:
 		return struct {
 			base
+			KeyOnlyRS
 			SessFromRequest
-		}{b, sr}
+		}{b, ko, sr}
 	}
-	return b
+	return struct {
+		base
+		KeyOnlyRS
+	}{b, ko}
 }
